@@ -706,3 +706,272 @@ pub mod atomic {
   }
   pub use std::sync::atomic::AtomicPtr;
 }
+
+// ------------------------------------------------------------------- mpsc
+/// `std::sync::mpsc` rebuilt on the facade's Mutex + Condvar, so that a changed
+/// tree that communicates through channels is explored like any other code
+/// (pass-through mode: ordinary blocking behaviour).
+pub mod mpsc {
+  use super::{Condvar, Mutex};
+  pub use std::sync::mpsc::{RecvError, RecvTimeoutError, SendError, TryRecvError, TrySendError};
+  use std::collections::VecDeque;
+  use std::sync::Arc;
+  use std::time::Duration;
+
+  struct Chan<T> {
+    q: Mutex<State<T>>,
+    cv: Condvar,
+    cv_space: Condvar,
+  }
+  struct State<T> {
+    items: VecDeque<T>,
+    senders: usize,
+    receiver_alive: bool,
+    cap: Option<usize>,
+  }
+
+  pub struct Sender<T>(Arc<Chan<T>>);
+  pub struct SyncSender<T>(Arc<Chan<T>>);
+  pub struct Receiver<T>(Arc<Chan<T>>);
+
+  fn mk<T>(cap: Option<usize>) -> Arc<Chan<T>> {
+    Arc::new(Chan {
+      q: Mutex::new(State { items: VecDeque::new(), senders: 1, receiver_alive: true, cap }),
+      cv: Condvar::new(),
+      cv_space: Condvar::new(),
+    })
+  }
+  pub fn channel<T>() -> (Sender<T>, Receiver<T>) {
+    let c = mk(None);
+    (Sender(c.clone()), Receiver(c))
+  }
+  pub fn sync_channel<T>(bound: usize) -> (SyncSender<T>, Receiver<T>) {
+    let c = mk(Some(bound.max(1)));
+    (SyncSender(c.clone()), Receiver(c))
+  }
+
+  fn send_impl<T>(c: &Arc<Chan<T>>, t: T) -> Result<(), SendError<T>> {
+    let mut g = c.q.lock().unwrap_or_else(|e| e.into_inner());
+    loop {
+      if !g.receiver_alive {
+        return Err(SendError(t));
+      }
+      if g.cap.map_or(true, |cap| g.items.len() < cap) {
+        g.items.push_back(t);
+        drop(g);
+        c.cv.notify_one();
+        return Ok(());
+      }
+      g = c.cv_space.wait(g).unwrap_or_else(|e| e.into_inner());
+    }
+  }
+
+  impl<T> Sender<T> {
+    pub fn send(&self, t: T) -> Result<(), SendError<T>> {
+      send_impl(&self.0, t)
+    }
+  }
+  impl<T> SyncSender<T> {
+    pub fn send(&self, t: T) -> Result<(), SendError<T>> {
+      send_impl(&self.0, t)
+    }
+    pub fn try_send(&self, t: T) -> Result<(), TrySendError<T>> {
+      let mut g = self.0.q.lock().unwrap_or_else(|e| e.into_inner());
+      if !g.receiver_alive {
+        return Err(TrySendError::Disconnected(t));
+      }
+      if g.cap.map_or(true, |cap| g.items.len() < cap) {
+        g.items.push_back(t);
+        drop(g);
+        self.0.cv.notify_one();
+        Ok(())
+      } else {
+        Err(TrySendError::Full(t))
+      }
+    }
+  }
+  macro_rules! sender_common {
+    ($name:ident) => {
+      impl<T> Clone for $name<T> {
+        fn clone(&self) -> Self {
+          self.0.q.lock().unwrap_or_else(|e| e.into_inner()).senders += 1;
+          $name(self.0.clone())
+        }
+      }
+      impl<T> Drop for $name<T> {
+        fn drop(&mut self) {
+          if std::thread::panicking() {
+            // never block or panic while unwinding
+            if let Ok(mut g) = self.0.q.try_lock() {
+              g.senders = g.senders.saturating_sub(1);
+            }
+            return;
+          }
+          let last = {
+            let mut g = self.0.q.lock().unwrap_or_else(|e| e.into_inner());
+            g.senders = g.senders.saturating_sub(1);
+            g.senders == 0
+          };
+          if last {
+            self.0.cv.notify_all();
+          }
+        }
+      }
+      impl<T> std::fmt::Debug for $name<T> {
+        fn fmt(&self, f: &mut std::fmt::Formatter<'_>) -> std::fmt::Result {
+          f.debug_struct(stringify!($name)).finish_non_exhaustive()
+        }
+      }
+    };
+  }
+  sender_common!(Sender);
+  sender_common!(SyncSender);
+
+  impl<T> Receiver<T> {
+    pub fn recv(&self) -> Result<T, RecvError> {
+      let mut g = self.0.q.lock().unwrap_or_else(|e| e.into_inner());
+      loop {
+        if let Some(t) = g.items.pop_front() {
+          drop(g);
+          self.0.cv_space.notify_one();
+          return Ok(t);
+        }
+        if g.senders == 0 {
+          return Err(RecvError);
+        }
+        g = self.0.cv.wait(g).unwrap_or_else(|e| e.into_inner());
+      }
+    }
+    pub fn try_recv(&self) -> Result<T, TryRecvError> {
+      let mut g = self.0.q.lock().unwrap_or_else(|e| e.into_inner());
+      if let Some(t) = g.items.pop_front() {
+        drop(g);
+        self.0.cv_space.notify_one();
+        return Ok(t);
+      }
+      if g.senders == 0 {
+        Err(TryRecvError::Disconnected)
+      } else {
+        Err(TryRecvError::Empty)
+      }
+    }
+    pub fn recv_timeout(&self, dur: Duration) -> Result<T, RecvTimeoutError> {
+      let start = crate::time::Instant::now();
+      let mut g = self.0.q.lock().unwrap_or_else(|e| e.into_inner());
+      loop {
+        if let Some(t) = g.items.pop_front() {
+          drop(g);
+          self.0.cv_space.notify_one();
+          return Ok(t);
+        }
+        if g.senders == 0 {
+          return Err(RecvTimeoutError::Disconnected);
+        }
+        let el = start.elapsed();
+        if el >= dur {
+          return Err(RecvTimeoutError::Timeout);
+        }
+        let (g2, _) = self.0.cv.wait_timeout(g, dur - el).unwrap_or_else(|e| e.into_inner());
+        g = g2;
+      }
+    }
+    pub fn iter(&self) -> Iter<'_, T> {
+      Iter(self)
+    }
+    pub fn try_iter(&self) -> TryIter<'_, T> {
+      TryIter(self)
+    }
+  }
+  impl<T> Drop for Receiver<T> {
+    fn drop(&mut self) {
+      if std::thread::panicking() {
+        if let Ok(mut g) = self.0.q.try_lock() {
+          g.receiver_alive = false;
+        }
+        return;
+      }
+      self.0.q.lock().unwrap_or_else(|e| e.into_inner()).receiver_alive = false;
+      self.0.cv_space.notify_all();
+    }
+  }
+  impl<T> std::fmt::Debug for Receiver<T> {
+    fn fmt(&self, f: &mut std::fmt::Formatter<'_>) -> std::fmt::Result {
+      f.debug_struct("Receiver").finish_non_exhaustive()
+    }
+  }
+  pub struct Iter<'a, T>(&'a Receiver<T>);
+  impl<'a, T> Iterator for Iter<'a, T> {
+    type Item = T;
+    fn next(&mut self) -> Option<T> {
+      self.0.recv().ok()
+    }
+  }
+  pub struct TryIter<'a, T>(&'a Receiver<T>);
+  impl<'a, T> Iterator for TryIter<'a, T> {
+    type Item = T;
+    fn next(&mut self) -> Option<T> {
+      self.0.try_recv().ok()
+    }
+  }
+  pub struct IntoIter<T>(Receiver<T>);
+  impl<T> Iterator for IntoIter<T> {
+    type Item = T;
+    fn next(&mut self) -> Option<T> {
+      self.0.recv().ok()
+    }
+  }
+  impl<T> IntoIterator for Receiver<T> {
+    type Item = T;
+    type IntoIter = IntoIter<T>;
+    fn into_iter(self) -> IntoIter<T> {
+      IntoIter(self)
+    }
+  }
+  impl<'a, T> IntoIterator for &'a Receiver<T> {
+    type Item = T;
+    type IntoIter = Iter<'a, T>;
+    fn into_iter(self) -> Iter<'a, T> {
+      Iter(self)
+    }
+  }
+}
+
+// ----------------------------------------------------------------- Barrier
+pub struct Barrier {
+  m: Mutex<(usize, usize)>,
+  cv: Condvar,
+  n: usize,
+}
+pub struct BarrierWaitResult(bool);
+impl BarrierWaitResult {
+  pub fn is_leader(&self) -> bool {
+    self.0
+  }
+}
+impl fmt::Debug for Barrier {
+  fn fmt(&self, f: &mut fmt::Formatter<'_>) -> fmt::Result {
+    f.debug_struct("Barrier").finish_non_exhaustive()
+  }
+}
+impl Barrier {
+  pub fn new(n: usize) -> Barrier {
+    Barrier { m: Mutex::new((0, 0)), cv: Condvar::new(), n }
+  }
+  pub fn wait(&self) -> BarrierWaitResult {
+    let mut g = self.m.lock().unwrap_or_else(|e| e.into_inner());
+    let gen = g.1;
+    g.0 += 1;
+    if g.0 < self.n {
+      while gen == g.1 {
+        g = self.cv.wait(g).unwrap_or_else(|e| e.into_inner());
+      }
+      BarrierWaitResult(false)
+    } else {
+      g.0 = 0;
+      g.1 = g.1.wrapping_add(1);
+      drop(g);
+      self.cv.notify_all();
+      BarrierWaitResult(true)
+    }
+  }
+}
